@@ -25,7 +25,7 @@ CHECKS = {
          "Every chain of catalogue operators up to the depth bound is run on every event history up to the length bound (hot subject, hot create(), cold create()/from_iter() delivery, every basic source) and the probe trace must equal the reference interpreter after every single event; nothing is sampled.", "5/C03"),
  "C04": ([E1], "bounded-exhaustive enumeration of merged input timelines on the real two-input operators, compared step by step with per-operator reference functions",
          "For every two-input combinator in both forms every merged timeline of the two inputs up to the length bound (terminals of either input at every position, cold synchronous inputs on either side) is executed and compared with the reference function after every event.", "5/C04"),
- "C05": ([E1], "bounded-exhaustive enumeration of outer/inner event interleavings on the real flattening operators against a FIFO reference model, with a live-subscription counter and hang/panic detection",
+ "C05": ([E1, E2], "bounded-exhaustive enumeration of outer/inner event interleavings on the real flattening operators against a FIFO reference model, with a live-subscription counter and hang/panic detection; plus exhaustive preemption-bounded DFS over interleavings of the outer-delivering and an inner-completing thread on merge_all_threads",
          "Every interleaving up to the length bound of outer items/terminals and inner items/terminals over cold and hot inner observables is run through merge_all(n)/concat_all/flatten/flat_map/concat_map (both forms); exact output, concurrency limit, and return of every call are checked at every step.", "5/C05"),
  "C06": ([E1, E2], "bounded-exhaustive enumeration of operation sequences on the five real subject types against a list model; plus exhaustive preemption-bounded DFS over interleavings of 2-3 threads sharing a SubjectThreads",
          "Every sequence up to the length bound of subscribe/unsubscribe/next/error/complete/retain/unsubscribe-subject/subscribe-from-a-callback is executed on each subject type; all probe traces and API answers are compared with the model after every operation. (The concurrent half is served by engine E2 ; see coverage.engines in the evidence file.)", "5/C06"),
